@@ -324,6 +324,9 @@ def check_lookup(run, bad, tag):
                 gm, vmm = precip.PHASE_PARAMS.get(nme, (1.0, 1.0))
                 g = 2.0 * (c['gamma'] * gm) * (precip.VMA * c['vm'] * vmm) / r
                 ok = (np.arange(len(r)) >= idx + 1) & (xa > 0)
+                # a class that repeats the value of its smaller neighbour is a copy (kawin fills classes whose equilibrium
+                # failed with the neighbour's value), not an evaluation at its own radius
+                ok[1:] &= xa[1:] != xa[:-1]
                 if np.any(ok):
                     Ti = (ph.Q - g[ok] / ph.xb) / (RGAS * np.log(ph.A / xa[ok]))
                     j = int(np.argmax(np.abs(Ti - Tn)))
